@@ -2,6 +2,8 @@ package run
 
 import (
 	"fmt"
+	"os"
+	"runtime"
 	"testing"
 	"testing/synctest"
 
@@ -24,7 +26,21 @@ func InBubble(t *testing.T, spec *Spec, tp *tape.Tape) (res *core.RunResult) {
 		}
 	}()
 	synctest.Test(t, func(t *testing.T) {
+		// a panic of the controller itself is harness trouble, never a verdict about /repo
+		defer func() {
+			if r := recover(); r != nil {
+				HarnessPanic(r)
+			}
+		}()
 		res = spec.Run(tp)
 	})
 	return res
+}
+
+// HarnessPanic reports a bug of the simulator itself and ends the worker with exit status 2.
+func HarnessPanic(r any) {
+	buf := make([]byte, 1<<16)
+	n := runtime.Stack(buf, false)
+	fmt.Fprintf(os.Stdout, "@@ERR %q\n", fmt.Sprintf("harness panic: %v\n%s", r, buf[:n]))
+	os.Exit(2)
 }
